@@ -86,7 +86,8 @@ Definition num_val (n : snum) : option num :=
   | None, None =>
       let m := N_of_digits (sn_int n) in
       if sn_neg n then
-        (if (Z.of_N m <=? 9223372036854775808)%Z then Some (NNeg (- Z.of_N m)) else as_double)
+        (if m =? 0 then Some (NPos 0)
+         else if (Z.of_N m <=? 9223372036854775808)%Z then Some (NNeg (- Z.of_N m)) else as_double)
       else (if m <=? 18446744073709551615 then Some (NPos m) else as_double)
   | _, _ => as_double
   end.
